@@ -214,3 +214,44 @@ func VerifC18QEVerify() {
 	}
 	symx.Assert(mm >= 0 && qe.TCBLevels[mm].Status == StatusUpToDate, "QE TCB level that is not up to date accepted")
 }
+
+// VerifC18TdxPolicy: TdxQuotePolicy.Verify accepts a TD report only if its TDX module is one the
+// policy allows: some allowed entry whose signer equals the report's MRSIGNERSEAM and whose MRSEAM
+// (when the entry pins one) equals the report's MRSEAM; with an empty list only Intel-signed
+// modules (all-zero signer).
+func VerifC18TdxPolicy() {
+	var rep TdReport
+	copy(rep.mrSeam[:], symx.Bytes("mrSeam", 48))
+	copy(rep.mrSignerSeam[:], symx.Bytes("mrSignerSeam", 48))
+	n := symx.Choose("entries", 3)
+	tp := &TdxQuotePolicy{}
+	for j := 0; j < n; j++ {
+		var mp TdxModulePolicy
+		copy(mp.MrSignerSeam[:], symx.Bytes(symx.N("allowedSigner", j), 48))
+		if symx.Bool(symx.N("pinsMrSeam", j)) {
+			var m [48]byte
+			copy(m[:], symx.Bytes(symx.N("allowedMrSeam", j), 48))
+			mp.MrSeam = &m
+		}
+		tp.AllowedTdxModules = append(tp.AllowedTdxModules, mp)
+	}
+	err := tp.Verify(&rep)
+	allowed := false
+	for j := range tp.AllowedTdxModules {
+		mp := &tp.AllowedTdxModules[j]
+		if mp.MrSignerSeam == rep.mrSignerSeam && (mp.MrSeam == nil || *mp.MrSeam == rep.mrSeam) {
+			allowed = true
+		}
+	}
+	if n == 0 {
+		allowed = rep.mrSignerSeam == [48]byte{}
+	}
+	if err == nil {
+		symx.Cover("accepted")
+		symx.Assert(allowed, "TD report with a TDX module the policy does not allow was accepted")
+	} else {
+		symx.Cover("rejected")
+		symx.Assert(!allowed, "TD report with an allowed TDX module rejected")
+	}
+	symx.Cover("end")
+}
